@@ -161,6 +161,32 @@ func (c01) Gen(tier string, seed int64) []fw.Unit {
 			add("truncating-runes", []byte("123"+string(base+low)), int64(r.Intn(4)), 0)
 		}
 	}
+	for _, base := range []string{"hello", "HELLO 123", "12345", "https://example.org/x?y=1"} {
+		for _, d := range decorate([]byte(base)) {
+			add("decorated", d, int64(r.Intn(4)), 0)
+			add("decorated", d, int64(r.Intn(4)), 3)
+		}
+	}
+	// value-directed: version 1-L byte contents whose check codewords begin with one,
+	// two or three zero bytes (found with the reference RS arithmetic)
+	{
+		rr := rngFor(seed, "C01rszero")
+		found := [4]int{}
+		want := [4]int{0, 12, 6, 1}
+		for tries := 0; tries < 3000000 && (found[1] < want[1] || found[2] < want[2]); tries++ {
+			ct := randBytes(rr, 8+rr.Intn(9), printAB)
+			ct[0] = byte(128 + rr.Intn(100)) // keep Auto in byte mode
+			rem := refdec.GF256Q.RSCheck(refdec.QRByteV1L(ct), 0, 7)
+			z := 0
+			for z < 3 && rem[z] == 0 {
+				z++
+			}
+			if z >= 1 && found[z] < want[z] {
+				found[z]++
+				add(fmt.Sprintf("rs-check-leading-zeros-%d", z), ct, 0, 3)
+			}
+		}
+	}
 	// mask hunting: short contents varied until all 8 masks tend to appear
 	for i := 0; i < 400; i++ {
 		add("mask-variety", randBytes(r, 1+r.Intn(14), pick(r, classes)), int64(i%4), int64(r.Intn(4)))
